@@ -178,7 +178,7 @@ def identify(string) -> str:
             return "cdata"
         if string.startswith("<!"):
             return "declaration"
-        if string.startswith("<?xml"):
+        if match_xml_declaration.match(string) is not None:
             return "xml_declaration"
         if string.startswith("<?"):
             return "processing_instruction"
